@@ -295,3 +295,11 @@ pub mod elf {
         crate::elf::verif_allocate_resolution(flag_bits, output_kind, relr)
     }
 }
+
+pub mod thunks {
+    /// See `crate::thunks::verif_assign_thunk_blocks`.
+    #[allow(clippy::type_complexity)]
+    pub fn assign_thunk_blocks(objects: &[(u64, u64)], max_branch_range: u64) -> (usize, Vec<Option<(u32, bool)>>) {
+        crate::thunks::verif_assign_thunk_blocks(objects, max_branch_range)
+    }
+}
